@@ -387,7 +387,17 @@ def over_budget():
     if c is None or c.replay:
         return False
     budget = float(os.environ.get("VERIF_FAIL_BUDGET_S", "240" if c.tier == "quick" else "1200"))
-    return bool(c.oracle_fail or c.mismatches or c.broken) and (time.time() - c.t0) > budget
+    if c.oracle_fail or c.mismatches:
+        return (time.time() - c.t0) > budget
+    if c.broken:
+        # only proof obligations are broken so far (no concrete input yet): the search for a failing input on the
+        # implementation must still happen, however long the proof leg took (seed C06-r9-1: a tie proof that no longer
+        # closes used up the budget and the check reported no-failing-input-found although `remove(max)` fails at
+        # once).  The budget for that search starts at the first case run after the obligation broke.
+        if not hasattr(c, "_search_t0"):
+            c._search_t0 = time.time()
+        return (time.time() - c._search_t0) > budget
+    return False
 
 
 def run_cases(exe, cases, shards=None, timeout=600, args=(), env=None):
